@@ -45,3 +45,29 @@ def definitional_oracle_at(units, relation):
                     'why': 'the implementation differs, on this input, from the model that is proved equal to the definition (shrunk correspondence mismatch)'}
         return None
     return oracle_at
+
+
+def point_oracle(pid):
+    """oracle_at for property pid: run the point checks at the mismatching input; keep findings that speak about pid and are not known"""
+    def oracle_at(unit, case, impl):
+        from harness.oracles import at_point, all as ALL
+        for f in at_point.probe(unit, case, impl):
+            if pid in ALL.classify(f) and ALL.is_known(f) is None:
+                return f
+        return None
+    return oracle_at
+
+
+def chained(*oracles):
+    """oracle_at that asks each oracle in turn and returns the first finding (point oracle first, then the definitional one);
+    a crash of one oracle does not hide the answer of the next."""
+    def oracle_at(unit, case, impl):
+        for o in oracles:
+            try:
+                f = o(unit, case, impl)
+            except Exception:  # noqa
+                f = None
+            if f:
+                return f
+        return None
+    return oracle_at
